@@ -11,9 +11,9 @@ import (
 // FrameEq: frames computed independently by full-history nodes for the same
 // round have the same hash (C13, second clause).
 type FrameEq struct {
-	hash    map[int]string
-	by      map[int]int
-	done    map[int]map[int]bool
+	hash     map[int]string
+	by       map[int]int
+	done     map[int]map[int]bool
 	Compared int
 }
 
